@@ -242,6 +242,7 @@ type Path struct {
 	chanSeq     int
 	eventSeq    int
 	preempt     int
+	curFrame    *Frame
 	memo        map[string]*memoEntry
 	allVars     []*smt.T
 	model       map[string]*big.Int
@@ -308,7 +309,11 @@ func (p *Path) check(extra *smt.T, want []*smt.T) (smt.Result, map[string]*big.I
 	if extra != nil {
 		ex = []*smt.T{extra}
 	}
+	t0 := time.Now()
 	r, m, err := p.solver.Check(ex, want)
+	if smt.SlowMS > 0 && time.Since(t0) > time.Duration(smt.SlowMS)*time.Millisecond {
+		fmt.Fprintf(os.Stderr, "slow query in %s\n", callChain(p.curFrame))
+	}
 	if err != nil {
 		p.eng.incon("solver-error: " + err.Error())
 		p.fresh = false
